@@ -27,6 +27,7 @@ The architecture here is briefly:
 import collections
 import os
 import sys
+import pickle
 import queue
 import subprocess
 import traceback
@@ -337,7 +338,7 @@ class CompiledSubprocess:
             _verif.trace('Dumped', sub=id(self))
         try:
             is_exception, traceback, result = pickle_load(self._get_process().stdout)
-        except EOFError as eof_error:
+        except (EOFError, pickle.UnpicklingError) as eof_error:
             if _verif.ON:
                 _verif.trace('EOF', sub=id(self))
             try:
